@@ -25,7 +25,12 @@ def eval_program(arg) -> dict:
     # ... and one mixes both semantics among its requires ports (explicit names + 'remaining')
     mixed_requires = stream % 9 == 2
 
+    big = stream % 10 == 6
+
     def has_user_bound_events(info):
+        if big and not (all(info['ports'][p]['n_out'] for p in info['provides']) and
+                        all(info['ports'][p]['n_in'] for p in info['requires'])):
+            return False      # more than ten ports, and each of them has events the user binds
         # the forced assignments below are only worth something if the ports they address have
         # events the user binds: out-events on a provides port, in-events on a requires port
         provides_out = any(info['ports'][p]['n_out'] for p in info['provides'])
@@ -41,7 +46,8 @@ def eval_program(arg) -> dict:
     prog, case, rng = progrun.make_program(
         PROP, seed, stream, scratch, stream % 3 == 1 or mc_in_only,
         mc_position=['first', 'middle', 'last'][(stream // 3) % 3], mc_shape=stream // 3,
-        accept=None if mc_in_only else has_user_bound_events, mc_no_outs=mc_in_only)
+        accept=None if mc_in_only else has_user_bound_events, mc_no_outs=mc_in_only,
+        big=big)
     # cover every semantics x direction combination in every run, whatever the random draw
     if mixed_requires:
         with_in = [p for p in prog.info['requires'] if prog.info['ports'][p]['n_in']]
@@ -146,7 +152,17 @@ def eval_program(arg) -> dict:
     for pname, ev, user_calls in prog.events():
         (comp_bound if user_calls else user_bound).append((pname, ev))
     limit = 12 if tier == 'quick' else 40
-    picks = user_bound if len(user_bound) <= limit else rng.sample(user_bound, limit)
+
+    def spread(pairs):
+        """At most `limit` + one per port: every port is represented (the last ones too)."""
+        if len(pairs) <= limit:
+            return pairs
+        first = {}
+        for pname, ev in pairs:
+            first.setdefault(pname, (pname, ev))
+        rest = [p for p in pairs if p not in first.values()]
+        return list(first.values()) + rng.sample(rest, min(len(rest), max(0, limit - len(first))))
+    picks = spread(user_bound)
     for pname, ev in picks:
         key = f'{pname}/{ev.name}'
         for client in (clients if (mci and mci['port'] == pname) else ['-']):
@@ -159,7 +175,7 @@ def eval_program(arg) -> dict:
             cnt[f'omitted_on_{sem}_{pdir}_port'] = cnt.get(f'omitted_on_{sem}_{pdir}_port', 0) + 1
             if client != '-':
                 cnt['omitted_on_multiclient_port'] = cnt.get('omitted_on_multiclient_port', 0) + 1
-    picks = comp_bound if len(comp_bound) <= limit else rng.sample(comp_bound, limit)
+    picks = spread(comp_bound)
     for pname, ev in picks:
         key = f'{pname}/{ev.name}'
         play(scripts.preamble(prog, clients=clients) + [f'compunbind {key}', 'final'],
@@ -182,7 +198,7 @@ def main(tier: str) -> int:
     run = common.Run(PROP, tier, level='fault_enumeration')
     n = 10 if tier == 'quick' else 200
     run.require('final_constructions', 'all_bound_runs', 'user_side_bindings_omitted',
-                'final_constructions_with_a_logger_that_registers_a_client',
+                'final_constructions_with_a_logger_that_registers_a_client', 'programs_of_big_size',
                 'component_side_bindings_omitted', 'omitted_on_STS_port', 'omitted_on_MTS_port',
                 'omitted_on_multiclient_port', 'late_registrations',
                 'late_registration_after_0_clients',
